@@ -100,6 +100,9 @@ def classify(failure, op, ls, shadow):
             failure["kf1_analysis"] = why
             if ok:
                 return kf.known("KF1")
+    if failure["kind"] == "exception" and kf.is_open("KF5", ID) and failure.get("exc_type") not in [c.__name__ for c in C.INJECTED_CLASSES] \
+            and kf.kf5_exception(shadow, op, failure["run_order"]):
+        return kf.known("KF5", "a task evaluated on the stale value of such a definition raised")
     if failure["kind"] == "exception" and kf.is_open("KF1", ID) and op[0] in ("set", "iop"):
         ok, why, inv = kf.kf1_premature(ls.runner.mgr, failure["run_order"], shadow, ls.runner, op[1])
         failure["kf1_analysis"] = why
